@@ -128,6 +128,19 @@ int main (int argc, char** argv)
     out_cmat ("vavt", v * A0 * herm (v)); out_cmat ("vvt", v * herm (v));
   });
 
+  // the complex rotation in the (0,1) plane of a Hermitian 3x3 matrix [[p, x+iy, b], [x-iy, q, c], [b*, c*, r]]
+  { const char* tier = getenv ("VERIF_TIER"); if (tier && std::string (tier) == "thorough")
+  fn_paths ("jrot3c", [] {
+    double p = in ("p", 0.7, 2.0), q = in ("q", 0.3, 1.0), r = in ("r"), x = in ("x", 0.2, 1.5), y = in ("y", 0.1, 1.0);
+    cd b = complex_in ("b"), c = complex_in ("c");
+    Matrix<3,3,cd> a, v, A0; a[0][0] = p; a[1][1] = q; a[2][2] = r; a[0][1] = cd (x, y); a[1][0] = cd (x, -y); a[0][2] = b; a[2][0] = std::conj (b); a[1][2] = c; a[2][1] = std::conj (c);
+    A0 = a; matrix_identity (v);
+    Vector<3,double> d; d[0] = p; d[1] = q; d[2] = r;
+    JacobiRotation (0, 1, a, v, d);
+    out_cmat ("a", a); out_cmat ("v", v); out_vec ("d", d);
+    out_cmat ("vavt", v * A0 * herm (v)); out_cmat ("vvt", v * herm (v));
+  }); }
+
 #ifndef SYMX_SYMBOLIC
   // degenerate and axis-aligned Hermitian quaternions: finite unit-determinant eigen-rotation
   fn ("qeigen_special_plain", [] {
